@@ -113,6 +113,17 @@ func C01(c *core.Ctx) {
 			c.ObAt("C01-R5", o.Key, o.Pos, o.OK, o.Msg)
 		}
 	}
+	// R6: one inexact floating-point step before the rounding (C05-R5, re-reported): an exact
+	// half must not be moved to the wrong side by a second inexact operation
+	c.Rule("C01-R6", "at most one inexact floating-point step feeds the rounding of a product or quotient (shared with C05-R5)", 3)
+	for _, o := range sub.Obligations() {
+		if o.Rule == "C05-R5" {
+			c.ObAt("C01-R6", o.Key, o.Pos, o.OK, o.Msg)
+		}
+	}
+	// R7: the totals are derived from one another in order (C03-R7)
+	c.Rule("C01-R7", "no totals member changes after something was computed from it (shared with C03-R7)", 5)
+	c03TotalsOrder(c, "C01-R7")
 }
 
 // c01RescaleNotScaled — C01-R4: the result of a precision-lowering
